@@ -288,6 +288,15 @@ func (w *World) RunCell(n int, cell Cell, r *rand.Rand) Line {
 	case "hdrdup_wrong_ok":
 		hdr.Add(H, wsec())
 		hdr.Add(H, secret)
+	case "dup_wrong_wrong":
+		if cell.Method == "POST" && r.Intn(2) == 0 {
+			body = append(body, kv{"client_secret", wsec()}, kv{"client_secret", wsec()})
+		} else {
+			query = append(query, kv{"client_secret", wsec()}, kv{"client_secret", wsec()})
+		}
+	case "hdrdup_wrong_wrong":
+		hdr.Add(H, wsec())
+		hdr.Add(H, wsec())
 	}
 
 	// the payload travels where a real proxy would put it (body of a POST/PUT) or in the query
